@@ -39,7 +39,7 @@ type conn interface {
 	SendCommand(context.Context, ipmi.Command) (ipmi.CompletionCode, error)
 }
 
-var cmdNames = []string{"GetDeviceID", "ChassisControl", "GetChannelAuthenticationCapabilities", "GetSDR", "DCMIGetPowerReading"}
+var cmdNames = []string{"GetDeviceID", "GetSensorReading", "ChassisControl", "GetChannelAuthenticationCapabilities", "GetSDR", "DCMIGetPowerReading"}
 
 func prepare(e hx.Entry, b *simbmc.BMC, draw int) *hx.Call {
 	var call *hx.Call
